@@ -89,6 +89,8 @@ func (t *floatScalar) CoerceOut(v interface{}) (interface{}, error) {
 		var f float64
 		if f, err = strconv.ParseFloat(tv, 64); err == nil {
 			v = float32(f)
+		} else {
+			v = nil
 		}
 	default:
 		v = nil
